@@ -32,6 +32,7 @@
 #if defined(VF_GOST_T) && defined(GOST3411_2012_USE_SMALL_TABLES) && defined(VF_GOST_USE_LIB_SMALL)
 #define VF_GOST_PI(x)	gost3411_2012_sbox[x]
 #define VF_GOST_AROW(t)	gost3411_2012_A[t]
+#define VF_GOST_LPS(out, in)	vf_gost_lps_scatter(out, in)
 #endif
 #include "specs/gost3411_spec.h"
 #include "stubs/hash_libc.h"
@@ -156,6 +157,21 @@ __CPROVER_requires(__CPROVER_w_ok(ctx, sizeof(gost3411_2012_ctx_t)) && __CPROVER
 __CPROVER_assigns(__CPROVER_object_upto(dst, 64), __CPROVER_object_upto(ctx->sbuf, sizeof(ctx->sbuf)))
 __CPROVER_ensures(vf_gost_xslp_post(VF_GOST_OLD8(a), VF_GOST_OLD8(b), dst))
 ;
+/* dst = LPS(src): the first step of g_0 (K_1 = LPS(h xor 0)) */
+static inline _Bool
+vf_gost_slp_post(uint64_t a0, uint64_t a1, uint64_t a2, uint64_t a3, uint64_t a4, uint64_t a5,
+    uint64_t a6, uint64_t a7, const uint64_t *now) {
+	uint64_t t[8], e[8];
+	t[0] = a0; t[1] = a1; t[2] = a2; t[3] = a3; t[4] = a4; t[5] = a5; t[6] = a6; t[7] = a7;
+	VF_GOST_LPS(e, t);
+	return VF_GOST_EQ8(e, now);
+}
+static inline void
+gost3411_2012_SLP(gost3411_2012_ctx_p ctx, uint64_t *dst, const uint64_t *src)
+__CPROVER_requires(__CPROVER_w_ok(ctx, sizeof(gost3411_2012_ctx_t)) && __CPROVER_w_ok(dst, 64) && __CPROVER_r_ok(src, 64))
+__CPROVER_assigns(__CPROVER_object_upto(dst, 64), __CPROVER_object_upto(ctx->sbuf, sizeof(ctx->sbuf)))
+__CPROVER_ensures(vf_gost_slp_post(VF_GOST_OLD8(src), dst))
+;
 #else
 /* oracle form of the same contract (see specs/gost3411_spec.h, VF_GOST_LPS_ORACLE) */
 #define VF_LPS_IN(i)	(vf_lps_in[__CPROVER_old(vf_lps_n)][i] == (__CPROVER_old(a[i]) ^ __CPROVER_old(b[i])))
@@ -170,6 +186,19 @@ __CPROVER_assigns(vf_lps_n, __CPROVER_object_upto(vf_lps_in[vf_lps_n], 64))
 __CPROVER_ensures(vf_lps_n == __CPROVER_old(vf_lps_n) + 1)
 __CPROVER_ensures(VF_LPS_IN(0) && VF_LPS_IN(1) && VF_LPS_IN(2) && VF_LPS_IN(3) &&
     VF_LPS_IN(4) && VF_LPS_IN(5) && VF_LPS_IN(6) && VF_LPS_IN(7))
+__CPROVER_ensures(VF_LPS_OUT(0) && VF_LPS_OUT(1) && VF_LPS_OUT(2) && VF_LPS_OUT(3) &&
+    VF_LPS_OUT(4) && VF_LPS_OUT(5) && VF_LPS_OUT(6) && VF_LPS_OUT(7))
+;
+#define VF_LPS_IN1(i)	(vf_lps_in[__CPROVER_old(vf_lps_n)][i] == __CPROVER_old(src[i]))
+static inline void
+gost3411_2012_SLP(gost3411_2012_ctx_p ctx, uint64_t *dst, const uint64_t *src)
+__CPROVER_requires(__CPROVER_w_ok(ctx, sizeof(gost3411_2012_ctx_t)) && __CPROVER_w_ok(dst, 64) && __CPROVER_r_ok(src, 64))
+__CPROVER_requires(vf_lps_n < VF_LPS_MAX)
+__CPROVER_assigns(__CPROVER_object_upto(dst, 64), __CPROVER_object_upto(ctx->sbuf, sizeof(ctx->sbuf)))
+__CPROVER_assigns(vf_lps_n, __CPROVER_object_upto(vf_lps_in[vf_lps_n], 64))
+__CPROVER_ensures(vf_lps_n == __CPROVER_old(vf_lps_n) + 1)
+__CPROVER_ensures(VF_LPS_IN1(0) && VF_LPS_IN1(1) && VF_LPS_IN1(2) && VF_LPS_IN1(3) &&
+    VF_LPS_IN1(4) && VF_LPS_IN1(5) && VF_LPS_IN1(6) && VF_LPS_IN1(7))
 __CPROVER_ensures(VF_LPS_OUT(0) && VF_LPS_OUT(1) && VF_LPS_OUT(2) && VF_LPS_OUT(3) &&
     VF_LPS_OUT(4) && VF_LPS_OUT(5) && VF_LPS_OUT(6) && VF_LPS_OUT(7))
 ;
